@@ -15,6 +15,7 @@ package main
 
 import (
 	"fmt"
+	"os"
 	"strings"
 
 	"golang.org/x/tools/go/ssa"
@@ -27,7 +28,7 @@ var walkGetters = map[string]bool{
 }
 
 func (w *World) ruleEmptyContainersDescended(r *Report, rule string, ev *ssa.Function) {
-	vw := w.valueWalkOf(ev)
+	_ = w.valueWalkOf(ev)
 	type outcome struct {
 		kind  string
 		calls int
@@ -52,28 +53,31 @@ func (w *World) ruleEmptyContainersDescended(r *Report, rule string, ev *ssa.Fun
 			}
 			return true
 		},
-		inline: func(fr *pxFrame, callee *ssa.Function) bool { return vw.in[callee] && callee != ev },
+		inline: func(fr *pxFrame, callee *ssa.Function) bool { return callee != ev },
 		onReturn: func(fr *pxFrame, ret *ssa.Return, results []*Term, st *pxState) {
 			n := 0
 			if v, ok := st.vals[calls]; ok {
 				n = int(v.C.Int64())
 			}
-			kind := ""
-			for k, s := range st.env {
-				if !strings.HasPrefix(k, "pure:(reflect.Value).Kind(") || s.Card().Cmp(one) != 0 {
-					continue
-				}
-				switch s.Min().Int64() {
-				case 17:
-					kind = "Array"
-				case 21:
-					kind = "Map"
-				case 23:
-					kind = "Slice"
+			// the path has narrowed some value's Kind to container kinds only (one kind, or
+			// a class such as {Array, Slice} when the test goes through a kind table)
+			if os.Getenv("HLINT_DEBUG") != "" {
+				for k, s := range st.env {
+					if strings.Contains(k, "Kind") || strings.Contains(k, "fin:") {
+						fmt.Fprintf(os.Stderr, "c16empty ret %s: %s ∈ %s\n", w.instrPos(ret), k, s)
+					}
 				}
 			}
-			if kind != "" {
-				outs = append(outs, outcome{kind, n, w.instrPos(ret)})
+			containers := ISet{{bi(17), bi(17)}, {bi(21), bi(21)}, {bi(23), bi(23)}}
+			for k, s := range st.env {
+				if !strings.HasPrefix(k, "pure:(reflect.Value).Kind(") || s.Empty() || !s.SubsetOf(containers) {
+					continue
+				}
+				for kv, name := range map[int64]string{17: "Array", 21: "Map", 23: "Slice"} {
+					if s.Contains(kv) {
+						outs = append(outs, outcome{name, n, w.instrPos(ret)})
+					}
+				}
 			}
 		},
 	})
